@@ -9,6 +9,7 @@ import AskarModel.Model.Spec
 import AskarModel.Lemmas.Expiry
 import AskarModel.Model.SqlShape
 import AskarModel.Generated.Stmts
+import AskarModel.Generated.StmtsPg
 
 namespace Askar.Store
 
@@ -96,5 +97,14 @@ theorem read_stmts_hide_expired :
 theorem write_stmts_ignore_expiry :
     ∀ s ∈ [Sql.Generated.deleteQuery, Sql.Generated.deleteAllQuery, Sql.Generated.updateQuery, Sql.Generated.insertQuery],
       s.hidesExpired = false := by decide
+
+/-- The POSTGRES backend: reads carry its expiry conjunct, writes do not (D8 holds there too). -/
+theorem pg_read_stmts_hide_expired :
+    ∀ s ∈ [Sql.GeneratedPg.countQuery, Sql.GeneratedPg.scanQuery, Sql.GeneratedPg.fetchQuery, Sql.GeneratedPg.fetchQueryUpdate],
+      s.hidesExpiredPg = true := by decide
+
+theorem pg_write_stmts_ignore_expiry :
+    ∀ s ∈ [Sql.GeneratedPg.deleteQuery, Sql.GeneratedPg.deleteAllQuery, Sql.GeneratedPg.updateQuery, Sql.GeneratedPg.insertQuery],
+      s.hidesExpiredPg = false ∧ s.hidesExpired = false := by decide
 
 end Askar.Store
